@@ -44,6 +44,12 @@ def gen_case(seed, i):
     gflags = []
     if nroots >= 2 and rng.random() < 0.3:
         gflags.append("--isolate")
+    # reports "as in C02": symbolic links as members (-S) or every hard link listed (-H)
+    r = rng.random()
+    if r < 0.3:
+        gflags.append("-S")
+    elif r < 0.45:
+        gflags.append("-H")
     dargs = []
     if rng.random() < 0.3:
         dargs += ["-n", str(rng.choice([1, 2]))]
